@@ -145,7 +145,8 @@ def explore(scenarios: dict, oracle, plan: list, shard_depth: int = 2, procs=Non
         # the master enumerates the shallow prefixes itself; deeper subtrees go to the workers
         frontier = [([], 0)]
         for level in range(8):
-            if level >= shard_depth and len(frontier) >= 256:
+            # deeper bounds get finer shards: subtree sizes are very uneven and the slowest shard is the wall time
+            if level >= shard_depth and len(frontier) >= (256 if max_calls <= 3 else 4096):
                 break
             nxt = []
             for prog, free in frontier:
@@ -162,7 +163,7 @@ def explore(scenarios: dict, oracle, plan: list, shard_depth: int = 2, procs=Non
             frontier = nxt
         for prog, free in frontier:
             jobs.append((sc_name, prog, max_calls, free, True))
-    results = pmap(_subtree, jobs, chunksize=max(1, min(20, len(jobs) // 128)), procs=procs)
+    results = pmap(_subtree, jobs, chunksize=1 if len(jobs) < 50000 else 4, procs=procs)
     for r in results:
         total.merge(r)
     total.distinct_documents = len(total.keys)
